@@ -1335,6 +1335,25 @@ func (fx *FnCtx) varVal(env *Env, v *types.Var) (Val, bool, error) {
 	return Val{}, false, nil
 }
 
+// addrOfLocal: the address of a local variable that lives in a heap cell (its address is taken in the code).
+func (fx *FnCtx) addrOfLocal(env *Env, name string) (Val, error) {
+	if fx.pkgInfo != nil && env.pos.IsValid() {
+		if sc := fx.fn.Pkg.Pkg.Scope().Innermost(env.pos); sc != nil {
+			if _, obj := sc.LookupParent(name, env.pos); obj != nil {
+				if v, ok := obj.(*types.Var); ok {
+					if a, ok := fx.allocByPos[v.Pos()]; ok && a.Heap {
+						if ref, ok := fx.vals[a]; ok {
+							return Val{T: ref, GoT: a.Type()}, nil
+						}
+						return Val{}, fmt.Errorf("&%s used before its allocation", name)
+					}
+				}
+			}
+		}
+	}
+	return Val{}, fmt.Errorf("&%s: not a local variable whose address is taken", name)
+}
+
 func (fx *FnCtx) ghostVar(env *Env, name string) (Val, error) {
 	li := env.loop
 	if li == nil {
